@@ -74,7 +74,9 @@ CHECKS['C03'] = dict(
          'each program is executed with tagged bindings so every executed use names the binding '
          'site it really read; oracle = symtable (scope of resolution) + the observed tag: goto '
          'must land on same-spelled definitions of that scope, never in a scope Python does not '
-         'consult, and exactly on the observed assignment for straight-line code.',
+         'consult, and exactly on the observed assignment for straight-line code.  Renderings: '
+         'one statement per line, distractor spellings of the identifier, iterable tag carriers, '
+         'and runs of simple statements joined on one physical line with `;`.',
     note=STUBS + '; one identifier; goto with default flags; CPython 3.12 comprehension inlining handled by a generator-expression rendering for symtable',
     technique='small-scope exhaustive enumeration of scope shapes; differential oracle = CPython execution with tagged bindings + symtable')
 CHECKS['C10'] = dict(
@@ -126,7 +128,9 @@ CHECKS['C20'] = dict(
     text='Full product of Project constructor arguments (12 672 configurations) x three ways of '
          'loading x 36 script locations x get_sys_path variants; oracle = value equality after '
          'save/load and a 12-line reference model of the documented sys.path composition, plus '
-         'import resolution compared with importlib.machinery.PathFinder on the composed path.',
+         'import resolution compared with importlib.machinery.PathFinder on the composed path; '
+         'shared-Project and project-discovery histories; invariance of the effective path under '
+         'infer/goto in buffers that edit sys.path themselves.',
     note=STUBS + '; private environment passed to every Script; no .. in relative paths',
     technique='exhaustive product enumeration of configurations against a reference model')
 CHECKS['C16'] = dict(
